@@ -27,10 +27,12 @@ theorem FragSt.drvN (h : FragSt L Pa Pb A p a b s0 s role pend last q) :
 
 /-- **`_write_to_pipe` of a fragmented message to a listening neighbour**, closed quiet network, loss-free:
     auto-ack on pipe 0, stop listening, transmit address `A`, then the fragment loop (`sendFrags_closed`),
-    after which `frame_buf` shows the message's own type again; `True`. -/
-theorem hop_frag (hc : L3Contracts) (E : FragEnv Pb A p a b s0)
-    (h : FragSt L Pa Pb A p a b s0 s (true, true, 0x3E) none none q)
+    after which `frame_buf` shows the message's own type again; `True`.  `last` = the bytes of the packet the
+    neighbour's radio accepted last (if any): not the payload of the first fragment (`hfirst`). -/
+theorem hop_frag (hc : L3Contracts) (E : FragEnv L Pb A p a b s0)
+    (h : FragSt L Pa Pb A p a b s0 s (true, true, 0x3E) none last q)
     (f tn tp : Nat) (tr : List (Header × Bytes × Frame))
+    (hfirst : ∀ t, tr.head? = some t → last ≠ some t.2.1)
     (haddr : pipeAddress s.node.cfg tn tp = .ok A) (hnl : tn ≠ s.node.a.addr)
     (hlong : ¬ s.node.frameBuf.message.length ≤ MAX_FRAG_SIZE)
     (hplan : fragPlan s.node.frameBuf.message (fragTotal s.node.frameBuf.message.length) s.node.frameBuf.header.ty
@@ -54,8 +56,8 @@ theorem hop_frag (hc : L3Contracts) (E : FragEnv Pb A p a b s0)
   have h3 := h.afterRf E D3 (false, false, 0x3F) F03 N3 (by rw [x3, x2, x1]) (fun _ => ⟨t3, a3⟩)
   -- the fragment loop
   have hn3 : (s.afterRf D3).node = { s.node with rf := D3.d } := afterRf_node s D3 hcur
-  obtain ⟨s4, x, hx, e4, h4⟩ := sendFrags_closed hc E tr f (s.afterRf D3) false none q htr h3
-    (fun _ hx => nomatch hx) hok hfuel
+  obtain ⟨s4, x, hx, e4, h4⟩ := sendFrags_closed hc E tr f (s.afterRf D3) false none last q htr h3
+    (fun _ hx => nomatch hx) (fun _ => hfirst) (fun _ hx => nomatch hx) hok hfuel
   have h5 := h4.setNode E (fun n => { n with frameBuf := { n.frameBuf with header := n.frameBuf.header.setTy s.node.frameBuf.header.ty } }) (fun _ => ⟨rfl, rfl⟩)
   refine ⟨_, x, hx, ?_, by simpa using h5⟩
   -- the computation
@@ -93,9 +95,10 @@ theorem hop_frag (hc : L3Contracts) (E : FragEnv Pb A p a b s0)
 /-- **`_write(to, TX_NORMAL)` of a fragmented message to a direct neighbour**: the hop (`hop_frag`), no
     NETWORK_ACK business whatever the type, listening restored, `True`; the last fragment waits in the
     neighbour's RX FIFO, all the others are in its reassembly cache. -/
-theorem nodeWrite_frag (hc : L3Contracts) (E : FragEnv Pb A p a b s0)
-    (h : FragSt L Pa Pb A p a b s0 s (true, true, 0x3E) none none q)
+theorem nodeWrite_frag (hc : L3Contracts) (E : FragEnv L Pb A p a b s0)
+    (h : FragSt L Pa Pb A p a b s0 s (true, true, 0x3E) none last q)
     (f wd tp t : Nat) (tr : List (Header × Bytes × Frame))
+    (hfirst : ∀ t, tr.head? = some t → last ≠ some t.2.1)
     (haddr : pipeAddress s.node.cfg wd tp = .ok A) (hnl : wd ≠ s.node.a.addr)
     (hlong : ¬ s.node.frameBuf.message.length ≤ MAX_FRAG_SIZE)
     (hplan : fragPlan s.node.frameBuf.message (fragTotal s.node.frameBuf.message.length) s.node.frameBuf.header.ty
@@ -107,7 +110,7 @@ theorem nodeWrite_frag (hc : L3Contracts) (E : FragEnv Pb A p a b s0)
     ∃ s' x, tr.getLast? = some x ∧ nexec (nodeWrite (f + 2) wd TX_NORMAL) s = (.ok true, s') ∧
       FragSt L Pa Pb A p a b s0 s' (true, true, 0x3E) (some x.2.1) (some x.2.1)
         (feed q (tr.map (·.2.2)).dropLast) := by
-  obtain ⟨s1, x, hx, e1, h1⟩ := hop_frag hc E h f wd tp tr haddr hnl hlong hplan htr hok hfuel
+  obtain ⟨s1, x, hx, e1, h1⟩ := hop_frag hc E h f wd tp tr hfirst haddr hnl hlong hplan htr hok hfuel
   -- listen again, auto-ack as for reception
   obtain ⟨D2, e2, F2, N2, x2⟩ := hc.listenOn s1.drv L Pa true 0x3F (h1.wf E) h1.drvN
   have h2 := h1.afterRf E D2 (true, true, 0x3F) F2 N2 x2 (fun e => nomatch e)
@@ -245,6 +248,23 @@ theorem fragTr_length (a b i msgT n : Nat) (msg : Bytes) : ∀ (m : Nat) (h : He
   induction m with
   | zero => intro h; rfl
   | succ m ih => intro h; simp only [fragTr, List.length_cons, ih]
+
+/-- the payload of the first entry of the plan is the packed frame `rxFrag … (n - m)` -/
+theorem fragTr_head_pack (a b i msgT n : Nat) (msg : Bytes) (hn2 : 2 ≤ n) (hn : n < 256) (hm : msgT < 256)
+    (hlen : msg.length ≤ 24 * n) (m : Nat) (h : Header) (hmn : m ≤ n)
+    (hfa : h.fromNode = a) (hfb : h.toNode = b) (hfi : h.frameId = i) (t : Header × Bytes × Frame)
+    (ht : (fragTr a b i msgT n msg m h).head? = some t) :
+    (rxFrag a b i msgT n msg (n - m)).pack = .ok t.2.1 := by
+  cases m with
+  | zero => cases ht
+  | succ m =>
+    have hk : n - (m + 1) < n := by omega
+    obtain ⟨T, R, E, hst, _, _, hfr⟩ := fragStep_rx a b i msgT n msg hn2 hn hm hlen (n - (m + 1)) hk h hfa hfb hfi
+    unfold fragTr at ht
+    simp only [hst, List.head?_cons, Option.some.injEq] at ht
+    rw [← ht, ← hfr]
+    unfold Frame.pack
+    rw [pack_int _ T rfl]; rfl
 
 theorem fragTr_frames (a b i msgT n : Nat) (msg : Bytes) : ∀ (m : Nat) (h : Header), m ≤ n →
     (fragTr a b i msgT n msg m h).map (·.2.2) = (List.range' (n - m) m).map (rxFrag a b i msgT n msg) := by
